@@ -2240,12 +2240,14 @@ class Model:
                     if par.skip_function:
                         assert cascade_par.has_values(par.pop.name), "Parameter function was marked as being skipped for some of the simulation, but the ParameterSet has no values to use instead. If skipping, the ParameterSet must contain some values"
 
+                if cascade_par.has_values(par.pop.name) and not (par.fcn_str and par._precompute and not par.skip_function):
+                    # If the databook contains values, then insert them now. For a precomputed function parameter they are only needed
+                    # for the years in which the function is skipped (parameter scenarios), the function fills in the rest below
+                    par.vals = cascade_par.interpolate(tvec=self.t, pop_name=par.pop.name) * par.scale_factor
+
                 if par.fcn_str and par._precompute:
                     # If the parameter is marked for precomputation, then insert it now
                     par.update()
-                elif cascade_par.has_values(par.pop.name):
-                    # If the databook contains values, then insert them now
-                    par.vals = cascade_par.interpolate(tvec=self.t, pop_name=par.pop.name) * par.scale_factor
 
                 par.constrain()  # Sampling might result in the parameter value going out of bounds (or user might have entered bad values in the databook) so ensure they are clipped here
 
